@@ -31,8 +31,8 @@ func init() {
 			"(IPv4 in 4- and 16-byte form, IPv6), OCSP / issuer URLs, CRL distribution points, policy OIDs, name constraints (DNS, email, IP ranges, directory names, critical flag), " +
 			"extra extensions (unknown OIDs and OIDs overriding generated ones), SignatureAlgorithm 0 or any valid for the signer) x subject key RSA/ECDSA/Ed25519 x signer key RSA/ECDSA P-224..P-521/Ed25519 " +
 			"x self-signed / issued from a parsed parent / issued from an unparsed parent; non-trivial = at least three optional fields set and the certificate was created; distinct by the template description",
-		MinNontrivial:         1000,
-		MinNontrivialThorough: 30000,
+		MinNontrivial:         1100,
+		MinNontrivialThorough: 25000,
 		Shards:                16,
 		Env:                   []string{"GODEBUG=rsa1024min=0"},
 		Assumptions: []string{
